@@ -349,6 +349,12 @@ DSL = [
 ]
 
 EARLY_FAMILIES = ("head", "seqgen", "nothing", "check")
+# Verbs that draw pseudo-random numbers.  `mlr --seed n` makes their output reproducible (flag table), so with the same
+# --seed on the chain and on every piped process a chain holding ONE such verb must equal the pipe; two of them in one
+# chain draw from one shared generator in an order the docs do not fix: such chains are declined.
+# (`sample` is not in the catalogue: its reservoir step is driven by the record's original NR, i.e. it consults the original
+# record counters, which the property excludes.)
+RANDOM_FAMILIES = ("shuffle", "bootstrap", "bootstrap-ci")
 
 # Quick-tier core: every (upstream that duplicates / retains / regroups / side-writes records) x (downstream whose
 # result depends on exactly which records arrive, in which order, as separate objects) pair.  These are the
@@ -505,6 +511,18 @@ def catalogue(rng):
                                                       ["--np", "--ur", "-j", "a"], ["--ul", "--ur", "-j", "b"],
                                                       ["-l", "a", "-r", "b", "-j", "ab"], ["-s", "-j", "a"]]) + ["-f", "left.dkvp"],
         {"left.dkvp": True})
+    # (added after the audit: the deterministic verbs of `mlr help list-verbs` that were missing)
+    add("flatten", ["flatten"] + rng.choice([[], ["-s", ":"], ["-f", "mm,c"]]))
+    add("unflatten", ["unflatten"] + rng.choice([[], ["-s", "_"], ["-s", "_", "-f", "x_sq,f_a"]]))
+    add("json-parse", ["json-parse"] + rng.choice([["-f", "i,x"], ["-k"], ["-k", "-f", "a,i,mm"]]))
+    add("utf8-to-latin1", ["utf8-to-latin1"])
+    add("latin1-to-utf8", ["latin1-to-utf8"])
+    add("bar", ["bar", "-f", rng.choice(["i", "x,i"])] + rng.choice([["--lo", "-20", "--hi", "60", "-w", "10"], ["--auto", "-w", "8"]]))
+    add("describe", ["describe"] + rng.choice([[], ["-n", "3"], ["-n", "0"]]))
+    # random verbs, reproducible under --seed (flag table); at most one per chain (see RANDOM_FAMILIES)
+    add("shuffle", ["shuffle"])
+    add("bootstrap", ["bootstrap"])
+    add("bootstrap-ci", ["bootstrap-ci", "-f", rng.choice(["x", "x,i"]), "-n", "40"] + rng.choice([[], ["-g", "a"], ["-a", "mean,median"]]))
     add("tee", ["tee", "--ojsonl", "--jvquoteall", "@SIDE@.out"])
     add("split", ["split", "-v", "--ojsonl", "--jvquoteall", "--prefix", "@SIDE@"] + rng.choice([["-g", "a"], ["-n", "3"], ["-m", "2"]]))
     return C
@@ -595,31 +613,41 @@ def _mk_verbs(picks):
     return verbs
 
 
-TYPE_PROBE = '$__t = joinv(apply($*, func(k,v) {return {k: typeof(v)}}), ";")'
+# The one documented reason for `A then B` to differ from `A | B` through a lossless format: numbers read from text are
+# typed by their spelling (reference-main-arithmetic.md), so a *float* whose rendering is an integer literal (7.0 * 2 prints
+# as 14) is an int for the next process but still a float for the next verb of a chain.  RETYPE is the identity on every
+# other value; on exactly those values it does what the boundary does (float spelled like an integer -> int), also inside
+# maps and arrays.  It reports on stderr what it did: VF_NORM per re-typed value, VF_UNSAFE for a value whose int()
+# would not print like the float did (|v| >= 2^53, negative zero).
+RETYPE = ('func vf_nz(v) {'
+          ' if (is_map(v)) { return apply(v, func(k, w) { return {k: vf_nz(w)}; }); }'
+          ' if (is_array(v)) { return apply(v, func(w) { return vf_nz(w); }); }'
+          ' if (is_float(v) && string(v) =~ "^[-+]?[0-9]+$") {'
+          ' if (abs(v) >= 9007199254740992 || string(v) =~ "^[-+]0+$") { eprint "VF_UNSAFE"; return v; }'
+          ' eprint "VF_NORM"; return int(v); }'
+          ' return v; }'
+          ' $* = vf_nz($*)')
 
 
-def _integral_float_at_boundary(res, verbs, stage_inputs, aux):
-    """Run every non-last stage once more with a typeof() probe appended; True if any value that crosses a
-    boundary is of type float but is spelled like an integer."""
-    for (ifmt, data), v in zip(stage_inputs[:-1], verbs[:-1]):
-        r = R.mlr(IFLAG[ifmt] + ["--ojsonl"] + NOFLAT + v["argv"] + ["then", "put", TYPE_PROBE], stdin=data, files=aux)
-        bump(res, "a_runs")
-        if r.verdict != "exited" or r.rc != 0:
-            continue
-        try:
-            recs = scan_records(r.out)
-        except ScanError:
-            continue
-        for rec in recs:
-            if not rec or rec[-1][0] != "__t":
-                continue
-            types = rec[-1][1].split(";") if rec[-1][1] else []
-            if len(types) != len(rec) - 1:
-                continue
-            for (k, text, kind), t in zip(rec[:-1], types):
-                if t == "float" and re.fullmatch(r"[-+]?[0-9]+", text):
-                    return True
-    return False
+def _retyped_chain(res, verbs, pre, inp, aux):
+    """The chain once more with RETYPE inserted at every `then` boundary.
+    -> (records or None, number of values re-typed, unsafe seen, argv)."""
+    argv = list(pre)
+    for j, v in enumerate(verbs):
+        if j:
+            argv += ["then", "put", RETYPE, "then"]
+        argv += v["argv"]
+    r = R.mlr(argv, stdin=inp, files=aux)
+    bump(res, "a_runs")
+    err = r.err or ""
+    n_norm = err.count("VF_NORM")
+    unsafe = "VF_UNSAFE" in err
+    if r.verdict != "exited" or r.rc != 0:
+        return None, n_norm, unsafe, argv
+    try:
+        return scan_records(r.out), n_norm, unsafe, argv
+    except ScanError:
+        return None, n_norm, unsafe, argv
 
 
 def pipe_case(case):
@@ -645,10 +673,19 @@ def pipe_case(case):
         picks = [rng.choice(cat) for _ in range(L)]
     verbs = _mk_verbs(picks)
     fams = [v["fam"] for v in verbs]
+    n_random = sum(1 for f in fams if f in RANDOM_FAMILIES)
+    seedflag = ["--seed", str(rng.randint(1, 99999))] if n_random else []
     rich = rng.random() < 0.25
-    n = rng.choice([0, 1, 2, 3, 5, 8, 13, 40] + ([620] if rng.random() < 0.15 else []))
+    if case.get("plans") == ["json"]:
+        rich = False       # the number-spelling profile never travels through JSON (see assumptions): it would leave this pair unjudged
+    # big: more records than the default batch (500) and than the readers' 512-record arena slab, read in ONE batch
+    # (--records-per-batch 513 / 1000 / 2000) or in several
+    big = rng.random() < (0.04 if case.get("core") else 0.12)
+    n = rng.choice([0, 1, 2, 3, 5, 8, 13, 40])
     if case.get("core"):
         n = rng.choice([3, 5, 8, 13, 40])
+    if big:
+        n = rng.choice([513, 620] if case.get("core") else [513, 620, 1300])
     ifmt = rng.choice(["dkvp", "dkvp", "json", "csv"]) if not rich else rng.choice(["dkvp", "csv"])
     homog = ifmt == "csv"
     recs = a_records(rng, n, ragged=0 if homog else rng.choice([0, 0.15]), hetero=(not homog and rng.random() < 0.3),
@@ -665,6 +702,9 @@ def pipe_case(case):
     final = ["--ojsonl"] + (["--jvquoteall"] if rich else [])
     with_kind = not rich
     chain_rpb = rng.choice([[], [], ["--records-per-batch", "1"], ["--records-per-batch", "2"], ["--records-per-batch", "7"]])
+    if big:
+        chain_rpb = rng.choice([[], ["--records-per-batch", "513"], ["--records-per-batch", "1000"], ["--records-per-batch", "2000"],
+                                ["--records-per-batch", "511"]])
     chain_argv = []
     for j, v in enumerate(verbs):
         if j:
@@ -675,8 +715,13 @@ def pipe_case(case):
     res = case_result(key, nontrivial=False)
     res["evals"] = 0
     famsig = "+".join(fams)
+    if n_random > 1:
+        res["skipped"] += 1
+        bump(res, "a_declined_two_random_verbs_share_one_generator")
+        return res
 
     # ---- the chain
+    chain_rpb = seedflag + chain_rpb
     full_chain = chain_rpb + IFLAG[ifmt] + final + NOFLAT + chain_argv
     rc = R.mlr(full_chain, stdin=inp, files=aux, keep_cwd=any_side)
     chain_side = {}
@@ -715,6 +760,8 @@ def pipe_case(case):
         plans += [("dkvp", prefer_dkvp), ("xsv", prefer_xsv)]
     if "explicit" in case and tier == "quick":
         plans = plans[:1]   # key-lifecycle core: 1015 pairs; one (JSON) intermediate each in the quick tier
+    if case.get("plans"):
+        plans = [pl for pl in plans if pl[0] in case["plans"]]   # all-ordered-pairs block: one intermediate-format plan per pair
     seen_fmt_seqs = set()
     stage_changes = None
     for pname, prefer in plans:
@@ -732,8 +779,8 @@ def pipe_case(case):
         for j, v in enumerate(verbs):
             stage_inputs.append((cur_ifmt, cur))
             last = (j == len(verbs) - 1)
-            rpb = rng.choice([[], [], ["--records-per-batch", "1"], ["--records-per-batch", "3"]])
-            base = rpb + IFLAG[cur_ifmt]
+            rpb = rng.choice([[], [], ["--records-per-batch", "1"], ["--records-per-batch", "3"]] + ([["--records-per-batch", "1000"]] * 2 if big else []))
+            base = seedflag + rpb + IFLAG[cur_ifmt]
             if last:
                 argv = base + final + NOFLAT + v["argv"]
                 r = R.mlr(argv, stdin=cur, files=aux, keep_cwd=bool(v["side"]))
@@ -767,8 +814,12 @@ def pipe_case(case):
                     break
                 try:
                     obs = scan_records(r.out)
-                except ScanError:
-                    res["skipped"] += 1      # stage prints non-record text: outside the law's domain
+                except ScanError as ex:
+                    # no catalogue verb prints non-record text (print/dump/emit-to-stdout are excluded), so this is judged
+                    # exactly like the same condition on the chain side
+                    add_violation(res, {"kind": "pipe-stage-output-unparseable", "verb": v["fam"]},
+                                  f"mlr {' '.join(v['argv'])} --ojsonl: output is not a sequence of JSON records: {ex}",
+                                  {"argv": argv, "stdin": cur[:6000], "files": aux, "stdout": r.out[:2000], "gen_seed": case["seed"]})
                     abort = True
                     break
                 stage_recs.append(obs)
@@ -855,14 +906,26 @@ def pipe_case(case):
                         if re.fullmatch(r"-?[0-9]{19,}", t) and not (-2**63 <= int(t) < 2**63):
                             vclass = "int-literal-beyond-int64"
                         break
-            # Explain before accusing: does some boundary carry a float whose rendering is an integer literal
-            # (7.0 * 2 prints as 14)?  Numbers read from text are typed by their spelling (reference-main-arithmetic.md),
-            # so no format - JSON included - can carry that value's float-ness; a type-sensitive downstream verb
-            # (format-values, typeof, summary's field_type, int-preserving arithmetic) then legitimately differs.
-            if dc in ("value", "type") and _integral_float_at_boundary(res, verbs, stage_inputs, aux):
-                res["skipped"] += 1
-                bump(res, "a_declined_integral_float_crosses_boundary")
-                continue
+            # Explain before accusing - constructively.  The only documented source of a chain/pipe difference is the
+            # loss of float-ness of a float spelled like an integer at a text boundary (see RETYPE).  Re-run the chain with
+            # exactly those values re-typed at every `then`: the excuse holds only if that run re-typed at least one value
+            # AND its output is record-for-record the pipe's output, i.e. the whole difference - the differing cells
+            # included - is accounted for by those values and nothing else.
+            retyped_note = None
+            if dc in ("value", "type"):
+                rt_recs, n_norm, unsafe, rt_argv = _retyped_chain(res, verbs, chain_rpb + IFLAG[ifmt] + final + NOFLAT, inp, aux)
+                if n_norm and rt_recs is not None and ((rt_recs == pipe_recs) if with_kind else (kt(rt_recs) == kt(pipe_recs))):
+                    res["skipped"] += 1
+                    bump(res, "a_declined_integral_float_crosses_boundary")
+                    continue
+                if unsafe:
+                    # a float >= 2^53 (or -0) spelled like an integer crossed a boundary: int() of it need not print like
+                    # the float did, so the re-typed run cannot stand in for the pipe; nothing can be concluded
+                    res["skipped"] += 1
+                    bump(res, "a_declined_integral_float_unsafe_to_retype")
+                    continue
+                retyped_note = {"values_retyped_at_boundaries": n_norm, "retyped_chain_argv": rt_argv,
+                                "retyped_chain_equals_pipe": False}
             # a record with duplicate field names (not representable in any format) made by some stage?
             dup_from = "-"
             for v, obs in zip(verbs, stage_recs + [chain_recs]):
@@ -888,7 +951,8 @@ def pipe_case(case):
                                 "verb_heads": "|".join(" ".join(v["argv"][:3]) for v in verbs)},
                           f"`mlr {' '.join(chain_argv)}` differs from the same verbs piped through {midsig or 'nothing'} ({dc}; "
                           f"{len(chain_recs)} vs {len(pipe_recs)} records)",
-                          dict(detail, expected=_short(chain_recs), got=_short(pipe_recs), first_diff=first_diff(chain_recs, pipe_recs)))
+                          dict(detail, expected=_short(chain_recs), got=_short(pipe_recs), first_diff=first_diff(chain_recs, pipe_recs),
+                               integral_float_excuse=retyped_note))
         # side files (tee / split): same records reach the file whether chained or piped, unless a later
         # verb stops the stream early (head without -g is documented to cease consuming input)
         for j, v in enumerate(verbs):
@@ -910,13 +974,8 @@ def pipe_case(case):
                               dict(detail, chain_files={k: x[:3] for k, x in csr.items()}, pipe_files={k: x[:3] for k, x in psr.items()}))
         if stage_changes is None and pname in ("json", "dkvp"):
             # non-trivial: every stage's output differs from its input
-            try:
-                r0 = R.mlr(IFLAG[ifmt] + ["--ojsonl"] + NOFLAT + ["cat"], stdin=inp)
-                bump(res, "a_runs")
-                seq = [kt(scan_records(r0.out))] + [kt(x) for x in stage_recs] + [kt(pipe_recs)]
-                stage_changes = all(seq[i] != seq[i + 1] for i in range(len(seq) - 1))
-            except ScanError:
-                stage_changes = False
+            seq = [[list(r) for r in recs]] + [kt(x) for x in stage_recs] + [kt(pipe_recs)]
+            stage_changes = all(seq[i] != seq[i + 1] for i in range(len(seq) - 1))
     res["nontrivial"] = bool(stage_changes)
     sample = {"monitor": "a", "chain": chain_argv, "input_format": ifmt, "n_records": n,
                      "profile": "number-spellings(text intermediates only)" if rich else "json-safe",
@@ -933,9 +992,22 @@ def pipe_case(case):
 WORDS = ["pan", "eks", "wye", "zee", "hat", "7", "-3", "0.25", "12", "4.50", "abc", "Q"]
 KEYPOOL = ["a", "b", "c", "d", "e", "g", "h", "u", "v", "w", "p", "q"]   # disjoint from the probe's field names
 NAME_POOL = ["in{}.dat", "in{}.dat", "d{}/part.txt", "sp ace{}.dat", "dätä{}.x", "a=b{}.dat", "x,y{}.in"]
-B_FORMATS = ["dkvp", "nidx", "json", "jsonl", "csv", "csvlite", "tsv", "xtab", "pprint"]
+B_FORMATS = ["dkvp", "nidx", "json", "jsonl", "csv", "csvlite", "tsv", "xtab", "pprint",
+             "tsvlite", "markdown", "usv", "asv", "dkvpx", "yaml", "recutils", "dcf"]     # (second row added after the audit: every reader with its own per-file handling)
 B_IFLAGS = {"dkvp": ["--idkvp"], "nidx": ["--inidx", "--ifs", " ", "--repifs"], "json": ["--ijson"], "jsonl": ["--ijsonl"],
-            "csv": ["--icsv"], "csvlite": ["--icsvlite"], "tsv": ["--itsv"], "xtab": ["--ixtab"], "pprint": ["--ipprint"]}
+            "csv": ["--icsv"], "csvlite": ["--icsvlite"], "tsv": ["--itsv"], "xtab": ["--ixtab"], "pprint": ["--ipprint"],
+            "tsvlite": ["--itsvlite"], "markdown": ["--imd"], "usv": ["--iusv"], "asv": ["--iasv"], "dkvpx": ["-i", "dkvpx"],
+            "yaml": ["--iyaml"], "recutils": ["--irecutils"], "dcf": ["--idcf"]}
+B_TABULAR = ("csv", "csvlite", "tsv", "tsvlite", "pprint", "markdown", "usv", "asv")
+B_SEP = {"csv": ",", "csvlite": ",", "tsv": "\t", "tsvlite": "\t", "pprint": " ", "usv": "\u241f", "asv": "\x1f"}
+B_RS = {"usv": "\u241e", "asv": "\x1e"}
+# reader options that are per-file state (each is documented for the readers listed; see assumptions)
+B_OPTS = {
+    "csv": ["implicit", "ragged", "comments", "bom"], "tsv": ["implicit", "ragged", "comments"],
+    "csvlite": ["implicit", "ragged", "comments", "bom"], "tsvlite": ["implicit", "ragged", "comments"],
+    "pprint": ["implicit", "ragged", "comments", "barred"], "usv": ["implicit"], "asv": ["implicit"],
+    "dkvp": ["comments"], "nidx": ["comments"],
+}
 
 # NF is read at the start, after appends, after unsetting a field in the middle, at the tail and at the head
 PROBE = "$nf0=NF;$nr=NR;$fnr=FNR;$f=FILENAME;$k=FILENUM;$nf1=NF;$new=1;$nf2=NF;unset $new;$nf3=NF;$tail=1;unset $tail;$nf4=NF;unset $@FIRST@;$nf5=NF"
@@ -976,17 +1048,18 @@ def _val(rng, allow_empty):
 
 
 def b_file(rng, fmt, fi, prev_keys, opts):
-    """One file: -> dict(kind, blocks=[(keys, rows)], records=[[(k,v)...]] as Miller should read them, text)."""
-    allow_empty = fmt in ("dkvp", "json", "jsonl", "csv", "csvlite", "tsv")
-    tabular = fmt in ("csv", "csvlite", "tsv", "pprint")
+    """One file: -> dict(kind, records=[[(k,v)...]] as Miller should read them, text, keys)."""
+    allow_empty = fmt in ("dkvp", "dkvpx", "json", "jsonl", "csv", "csvlite", "tsv", "tsvlite", "usv", "asv")
+    tabular = fmt in B_TABULAR
     kind = rng.choices(["normal", "empty", "header-only", "json-empty-array"], [0.7, 0.15, 0.1, 0.05])[0]
     if kind == "header-only" and not tabular:
         kind = "empty"
     if kind == "json-empty-array" and fmt != "json":
         kind = "normal"
-    n = rng.choice([1, 1, 2, 3, 5, 9] + ([499, 501, 1003] if rng.random() < 0.08 else []))
+    # sizes around the default batch (500) and the readers' record slab (512)
+    n = rng.choice([1, 1, 2, 3, 5, 9] + ([499, 501, 513, 1003, 1100] if rng.random() < 0.10 else []))
     nblocks = 1
-    if fmt in ("csvlite", "pprint") and rng.random() < 0.3:
+    if fmt in ("csvlite", "pprint", "tsvlite") and not opts and rng.random() < 0.3:
         nblocks = 2
     blocks = []
     keys = prev_keys
@@ -1006,12 +1079,13 @@ def b_file(rng, fmt, fi, prev_keys, opts):
         blocks = []
     if kind == "header-only":
         blocks = [(blocks[0][0], [])]
-    eol = "\r\n" if (fmt in ("dkvp", "nidx", "csv", "tsv", "csvlite") and rng.random() < 0.15) else "\n"
+    eol = "\r\n" if (fmt in ("dkvp", "dkvpx", "nidx", "csv", "tsv", "csvlite", "tsvlite") and rng.random() < 0.15) else "\n"
+    eol = B_RS.get(fmt, eol)
     final_eol = rng.random() >= 0.25
     records = []
     lines = []
     text = None
-    if fmt in ("dkvp", "json", "jsonl", "xtab", "nidx"):
+    if not tabular:
         # non-tabular: records may be heterogeneous inside a file
         for keys_b, rows in blocks:
             for row in rows:
@@ -1020,7 +1094,10 @@ def b_file(rng, fmt, fi, prev_keys, opts):
                     drop = rng.randrange(1, len(rec))
                     rec = rec[:drop] + rec[drop + 1:]
                 records.append(rec)
-        if fmt == "dkvp":
+        if fmt == "yaml":
+            # key order is not this property's subject (the YAML reader's is C01-F6): keys are written, and expected, sorted
+            records = [sorted(r) for r in records]
+        if fmt in ("dkvp", "dkvpx"):
             lines = [",".join(f"{k}={v}" for k, v in r) for r in records]
         elif fmt == "nidx":
             lines = [(" " * rng.choice([1, 1, 2])).join(v for _, v in r) for r in records]
@@ -1034,6 +1111,26 @@ def b_file(rng, fmt, fi, prev_keys, opts):
                 w = max(len(k) for k, _ in r) if rng.random() < 0.5 else 0
                 for k, v in r:
                     lines.append(k.ljust(w) + " " + v)
+        elif fmt in ("recutils", "dcf"):
+            # `Name: value` lines, records separated by one (or more: recutils) blank lines
+            for idx, r in enumerate(records):
+                if idx:
+                    lines += [""] * (rng.choice([1, 1, 2]) if fmt == "recutils" else 1)
+                for k, v in r:
+                    lines.append(f"{k}: {v}")
+        elif fmt == "yaml":
+            # all scalars double-quoted (strings): a list of maps, or one document per record separated by `---`
+            q = lambda x: json.dumps(x, ensure_ascii=False)
+            if rng.random() < 0.5:
+                for r in records:
+                    for p, (k, v) in enumerate(r):
+                        lines.append(("- " if p == 0 else "  ") + f"{q(k)}: {q(v)}")
+            else:
+                for idx, r in enumerate(records):
+                    if idx:
+                        lines.append("---")
+                    for k, v in r:
+                        lines.append(f"{q(k)}: {q(v)}")
         elif fmt == "json":
             if kind == "json-empty-array":
                 text = rng.choice(["[]", "[\n]\n", "[ ]\n"])
@@ -1044,20 +1141,14 @@ def b_file(rng, fmt, fi, prev_keys, opts):
                 if not final_eol:
                     text = text.rstrip("\n")
     else:
-        sep = {"csv": ",", "csvlite": ",", "tsv": "\t", "pprint": " "}[fmt]
+        sep = B_SEP.get(fmt)
         implicit = opts.get("implicit")
         ragged = opts.get("ragged")
+        barred = opts.get("barred")
         for bi, (keys_b, rows) in enumerate(blocks):
             if bi:
                 lines.append("")
-            if fmt == "pprint" and rng.random() < 0.5:
-                widths = [max([len(k)] + [len(r[c]) for r in rows]) for c, k in enumerate(keys_b)]
-                fmtrow = lambda cells: " ".join(c.ljust(w) for c, w in zip(cells, widths)).rstrip(" ")
-            else:
-                fmtrow = lambda cells: sep.join(cells)
-            lines.append(fmtrow(keys_b))
-            if implicit:
-                records.append([(str(p + 1), k) for p, k in enumerate(keys_b)])
+            cellrows = []
             for row in rows:
                 cells = list(row)
                 if ragged and rng.random() < 0.4:
@@ -1065,23 +1156,62 @@ def b_file(rng, fmt, fi, prev_keys, opts):
                         cells = cells[:rng.randint(1, len(cells) - 1)]
                     else:
                         cells = cells + [rng.choice(WORDS) for _ in range(rng.randint(1, 2))]
+                cellrows.append(cells)
+            if fmt == "markdown":
+                fmtrow = lambda cells: "| " + " | ".join(cells) + " |"
+            elif fmt == "pprint" and (barred or (not ragged and rng.random() < 0.5)):
+                widths = [max([len(k)] + [len(r[c]) for r in rows]) for c, k in enumerate(keys_b)]
+                if barred:
+                    fmtrow = lambda cells: "| " + " | ".join(c.ljust(w) for c, w in zip(cells, widths)) + " |"
+                else:
+                    fmtrow = lambda cells: " ".join(c.ljust(w) for c, w in zip(cells, widths)).rstrip(" ")
+            else:
+                fmtrow = lambda cells: sep.join(cells)
+            bar = ("+" + "+".join("-" * (w + 2) for w in widths) + "+") if barred else None
+            if barred:
+                lines.append(bar)
+            lines.append(fmtrow(keys_b))
+            if barred:
+                lines.append(bar)
+            if fmt == "markdown":
+                lines.append("| " + " | ".join("---" for _ in keys_b) + " |")
+            if implicit:
+                records.append([(str(p + 1), k) for p, k in enumerate(keys_b)])
+            for cells in cellrows:
                 lines.append(fmtrow(cells))
                 if implicit:
                     records.append([(str(p + 1), v) for p, v in enumerate(cells)])
                 else:
                     # surplus values get their 1-up column number as key (flag table + recorded example in
-                    # record-heterogeneity.md). Too-short rows: the CSV reader keeps only the keys it has values
-                    # for (that recorded example), the TSV reader fills the rest with "" (flag table)
+                    # record-heterogeneity.md). Too-short rows: the flag table says the remaining keys are filled with
+                    # empty strings (TSV, CSV-lite, TSV-lite, PPRINT readers); the CSV reader keeps only the keys it has
+                    # values for (the recorded example in record-heterogeneity.md)
                     rec = []
                     for p, v in enumerate(cells):
                         rec.append((keys_b[p] if p < len(keys_b) else str(p + 1), v))
-                    if fmt == "tsv":
+                    if fmt != "csv":
                         rec += [(k2, "") for k2 in keys_b[len(cells):]]
                     records.append(rec)
+            if barred and cellrows:
+                lines.append(bar)
+    if opts.get("comments") and fmt in ("dkvp", "nidx", "csv", "csvlite", "tsv", "tsvlite", "pprint") and lines:
+        # --skip-comments: lines starting with # are not data, wherever they stand (before the header too); no effect on FNR
+        out_lines = []
+        if rng.random() < 0.6:
+            out_lines.append(f"# file {fi} starts")
+            if rng.random() < 0.3:
+                out_lines.append("#")
+        for ln in lines:
+            out_lines.append(ln)
+            if rng.random() < 0.2:
+                out_lines.append(f"#note after {len(out_lines)}")
+        lines = out_lines
     if text is None:
         text = eol.join(lines)
         if lines and final_eol:
             text += eol
+    if opts.get("bom") and text and rng.random() < 0.75:
+        text = "\ufeff" + text      # a byte-order mark at the head of this file (whichever its position in the list)
     last_keys = blocks[-1][0] if blocks else prev_keys
     return {"kind": kind if blocks or kind != "normal" else "empty", "records": records, "text": text, "keys": last_keys}
 
@@ -1122,12 +1252,19 @@ def ctx_case(case):
     opts = {}
     if case.get("force_opts") is not None:
         opts = dict(case["force_opts"])
-    elif fmt in ("csv", "tsv"):
+    elif fmt in B_OPTS:
         c = rng.random()
-        if c < 0.2:
+        avail = B_OPTS[fmt]
+        if c < 0.2 and "implicit" in avail:
             opts["implicit"] = True
-        elif c < 0.4:
+        elif c < 0.4 and "ragged" in avail:
             opts["ragged"] = True
+        elif 0.4 <= c < 0.5 and "comments" in avail:
+            opts["comments"] = True
+        elif 0.5 <= c < 0.58 and "bom" in avail:
+            opts["bom"] = True
+        elif 0.5 <= c < 0.58 and "barred" in avail:
+            opts["barred"] = True
     nfiles = rng.choice([1, 2, 2, 3, 3, 4, 5])
     files = {}
     flist = []
@@ -1152,9 +1289,14 @@ def ctx_case(case):
     nonempty = sum(1 for _, fd in flist if fd["records"])
     flags = list(B_IFLAGS[fmt])
     if opts.get("implicit"):
-        flags.append(rng.choice(["--implicit-csv-header", "--headerless-csv-input", "--hi"]) if fmt == "csv" else "--implicit-tsv-header")
+        flags.append(rng.choice(["--implicit-csv-header", "--headerless-csv-input", "--hi"]) if fmt == "csv" else
+                     rng.choice(["--implicit-tsv-header", "--implicit-csv-header"]) if fmt in ("tsv", "tsvlite") else "--implicit-csv-header")
     if opts.get("ragged"):
-        flags.append(rng.choice(["--allow-ragged-csv-input", "--ragged"]))
+        flags.append(rng.choice(["--allow-ragged-csv-input", "--ragged", "--allow-ragged-tsv-input"]))
+    if opts.get("comments"):
+        flags.append("--skip-comments")
+    if opts.get("barred"):
+        flags.append("--barred-input")
     out = ["--ojsonl", "--jvquoteall"]
     key = _h("b", case["seed"])
     res = case_result(key, nontrivial=(nonempty >= 2))
@@ -1182,7 +1324,7 @@ def ctx_case(case):
     probe = PROBE.replace("@FIRST@", first)
     variants = ["core", rng.choice(["mid", "mid", "catfile", "perfile", "endonly"])]
     mid = rng.choice(MIDS[1:])
-    for b in ("1", "2", "500"):
+    for b in ("1", "2", "500") + ((rng.choice(["513", "1000", "5000"]),) if N > 500 else ()):
         bflag = ["--records-per-batch", b]
         for var in variants:
             sigx = {"format": fmt, "variant": var if var != "mid" else "mid:" + mid[0], "rpb": b,
@@ -1379,8 +1521,8 @@ def src_case(case):
 
     forms = []
 
-    def form(name, pre, names, files, stdin=b"", env=None, exp_names=None, exp_recsets=None, post=None):
-        forms.append({"form": name, "pre": pre, "names": names, "files": files, "stdin": stdin, "env": env,
+    def form(name, pre, names, files, stdin=b"", env=None, exp_names=None, exp_recsets=None, post=None, abs_cwd=False):
+        forms.append({"form": name, "pre": pre, "names": names, "files": files, "stdin": stdin, "env": env, "abs_cwd": abs_cwd,
                       "exp": expected(exp_names if exp_names is not None else names, exp_recsets if exp_recsets is not None else recsets),
                       "post": post or []})
 
@@ -1396,6 +1538,37 @@ def src_case(case):
     form("from", fromflags, [], pf, exp_names=plain)
     form("mfrom", ["--mfrom"] + plain + ["--"], [], pf, exp_names=plain)
     form("from+rpb1", ["--records-per-batch", "1"] + fromflags, [], pf, exp_names=plain)
+    form("from+rpb1000", ["--records-per-batch", "1000"] + fromflags, [], pf, exp_names=plain)
+    # --files {list}: "a file which itself contains, one per line, names of input files. May be used more than once"
+    # (flag table).  Lists with and without a final newline, the option given twice, mixed with --from / --mfrom / names
+    # after the verb (all append to one list of inputs in command-line order), lists naming compressed files.
+    def lst(names, final=True, eol="\n"):
+        return (eol.join(names) + (eol if final else "")).encode("utf-8")
+
+    h = max(1, nfiles // 2)
+    first, rest = plain[:h], (plain[h:] or plain[:1])
+    rs_first, rs_rest = recsets[:h], (recsets[h:] or recsets[:1])
+    form("--files", ["--files", "list.txt"], [], dict(pf, **{"list.txt": lst(plain)}), exp_names=plain)
+    form("--files-no-final-newline", ["--files", "list.txt"], [], dict(pf, **{"list.txt": lst(plain, final=False)}), exp_names=plain)
+    form("--files-crlf", ["--files", "list.txt"], [], dict(pf, **{"list.txt": lst(plain, eol="\r\n")}), exp_names=plain)
+    form("--files-twice", ["--files", "l1.txt", "--files", "l2.txt"], [],
+         dict(pf, **{"l1.txt": lst(first, final=rng.random() < 0.5), "l2.txt": lst(rest, final=rng.random() < 0.5)}),
+         exp_names=first + rest, exp_recsets=rs_first + rs_rest)
+    form("--files+names-after-verb", ["--files", "l1.txt"], rest, dict(pf, **{"l1.txt": lst(first)}),
+         exp_names=first + rest, exp_recsets=rs_first + rs_rest)
+    form("--files+from", ["--files", "l1.txt"] + [x for nme in rest for x in ("--from", nme)], [], dict(pf, **{"l1.txt": lst(first)}),
+         exp_names=first + rest, exp_recsets=rs_first + rs_rest)
+    form("from+--files", [x for nme in first for x in ("--from", nme)] + ["--files", "l2.txt"], [], dict(pf, **{"l2.txt": lst(rest, final=False)}),
+         exp_names=first + rest, exp_recsets=rs_first + rs_rest)
+    form("mfrom+--files", ["--mfrom"] + first + ["--", "--files", "l2.txt"], [], dict(pf, **{"l2.txt": lst(rest)}),
+         exp_names=first + rest, exp_recsets=rs_first + rs_rest)
+    form("from+names-after-verb", [x for nme in first for x in ("--from", nme)], rest, pf,
+         exp_names=first + rest, exp_recsets=rs_first + rs_rest)
+    form("--files-in-subdir", ["--files", "lists/l.txt"], [], dict(pf, **{"lists/l.txt": lst(plain, final=False)}), exp_names=plain)
+    # file:// names (new-in-miller-6.md: "You can read input with prefixes https://, http://, and file://"), relative and absolute
+    form("file-uri", [], ["file://" + nme for nme in plain], pf)
+    form("file-uri-absolute", [], ["file://@CWD@/" + nme for nme in plain], pf, abs_cwd=True)
+    form("file-uri-from", [x for nme in plain for x in ("--from", "file://" + nme)], [], pf, exp_names=["file://" + nme for nme in plain])
     concat_ok = fmt in ("dkvp", "nidx", "jsonl", "xtab") or (fmt == "json" and False)
     if nfiles == 1:
         form("stdin", [], [], {}, stdin=datas[0], exp_names=["(stdin)"])
@@ -1410,6 +1583,12 @@ def src_case(case):
     bzs = [bz2.compress(d, rng.choice([1, 9])) for d in datas]
     zzs = [zlib.compress(d, rng.choice([1, 6, 9])) for d in datas]
     form("ext-gz", [], named(".gz"), dict(zip(named(".gz"), gzs)))
+    form("--files-ext-gz", ["--files", "list.txt"], [], dict(zip(named(".gz"), gzs), **{"list.txt": lst(named(".gz"), final=rng.random() < 0.5)}),
+         exp_names=named(".gz"))
+    form("--files+gzin", ["--gzin", "--files", "list.txt"], [], dict(zip(named(".bin"), gzs), **{"list.txt": lst(named(".bin"))}),
+         exp_names=named(".bin"))
+    form("--files+prepipe", ["--prepipe", "gunzip", "--files", "list.txt"], [], dict(zip(named(".gz"), gzs), **{"list.txt": lst(named(".gz"), final=False)}),
+         exp_names=named(".gz"))
     form("ext-bz2", [], named(".bz2"), dict(zip(named(".bz2"), bzs)))
     form("ext-z", [], named(".z"), dict(zip(named(".z"), zzs)))
     form("flag-gzin", ["--gzin"], named(".bin"), dict(zip(named(".bin"), gzs)))
@@ -1453,7 +1632,15 @@ def src_case(case):
     def observe(fm):
         """-> (status, got, r): status in ok | bad-run | fails | unparseable | differs"""
         argv = fm["pre"] + iflags + out + verb + fm["names"]
-        r = R.mlr(argv, stdin=fm["stdin"], files=fm["files"], env=fm["env"])
+        cwd = None
+        if fm["abs_cwd"]:
+            cwd = R.new_scratch()
+            argv = [a.replace("@CWD@", cwd) for a in argv]
+        r = R.mlr(argv, stdin=fm["stdin"], files=fm["files"], env=fm["env"], cwd=cwd)
+        if cwd:
+            shutil.rmtree(cwd, ignore_errors=True)
+            r.stdout = (r.stdout or b"").replace(cwd.encode(), b"@CWD@")
+            argv = [a.replace(cwd, "@CWD@") for a in argv]
         bump(res, "c_runs")
         if r.verdict != "exited" or r.crashed():
             return "bad-run", None, r, argv
@@ -1596,12 +1783,21 @@ def run(chk):
             for i in range(30):
                 cases.append({"seed": f"{chk.seed}/a4/{i}", "tier": chk.tier, "len": 4})
         else:
+            # every ordered pair of families once, each with ONE intermediate-format plan (JSON | DKVP | CSV/TSV, rotating so
+            # that the three plans are spread evenly over the rows and the columns of the pair matrix); the blocks where
+            # chaining can plausibly differ from piping (key-lifecycle pairs, long chains) keep all three plans
             idx = 0
-            for fa in fam_names:
-                for fb in fam_names:
-                    for rep in range(2 if (fa.startswith(("put-", "filter-")) == fb.startswith(("put-", "filter-"))) else 1):
-                        cases.append({"seed": f"{chk.seed}/ap/{idx}", "tier": chk.tier, "families": [fa, fb]})
-                        idx += 1
+            plan_names = ("json", "dkvp", "xsv")
+            for ia, fa in enumerate(fam_names):
+                for ib, fb in enumerate(fam_names):
+                    cases.append({"seed": f"{chk.seed}/ap/{idx}", "tier": chk.tier, "families": [fa, fb],
+                                  "plans": [plan_names[(ia + ib + int(chk.seed)) % 3]]})
+                    idx += 1
+            # and the quick tier's core pairs with all three plans
+            for fa in CORE_UP:
+                for fb in CORE_DOWN:
+                    cases.append({"seed": f"{chk.seed}/ac/{idx}", "tier": chk.tier, "families": [fa, fb], "core": True})
+                    idx += 1
             kidx = 0
             for ua in KEY_UP:
                 for da in KEY_DOWN:
@@ -1613,20 +1809,26 @@ def run(chk):
                 cases.append({"seed": f"{chk.seed}/ak3/{i}", "tier": chk.tier, "explicit": [r3.choice(KEY_UP), r3.choice(KEY_UP), r3.choice(KEY_DOWN)],
                               "core": True, "wide": i % 4 != 0})
             chk.extra["a_key_lifecycle_pairs_enumerated"] = kidx
-            for i in range(2000):
+            for i in range(1500):
                 cases.append({"seed": f"{chk.seed}/a34/{i}", "tier": chk.tier, "len": 3 + (i % 2)})
             chk.extra["a_ordered_family_pairs_enumerated"] = len(fam_names) ** 2
         for c in cases[:2] + cases[-2:]:
             c["sample"] = True
         chk.pmap(pipe_case, cases, chunksize=4, label="a chain-vs-pipe")
     if not only or "b" in only:
-        n = 20 if q else 112
+        n = 12 if q else 70
         cases = [{"seed": f"{chk.seed}/b/{fmt}/{i}", "fmt": fmt, "tier": chk.tier} for fmt in B_FORMATS for i in range(n)]
-        # reader-option sweep (added after seeded change C05-b): per-file reader state (the header, implicit or read) must not
-        # leak from one file to the next; every option set x file lists whose files all have their own column count
-        for fmt in ("csv", "tsv"):
-            for oi, fo in enumerate([{"implicit": True}, {"ragged": True}, {}]):
-                for i in range(6 if q else 40):
+        # reader-option sweep (added after seeded change C05-b, widened after the audit): per-file reader state (the header,
+        # implicit or read; the BOM; comment lines before the header; the bars of barred PPRINT) must not leak from one file
+        # to the next; every reader that has such state x every option set x file lists whose files all have their own
+        # column count
+        for fmt in B_FORMATS:
+            if fmt in ("json", "jsonl"):
+                continue
+            for oi, oname in enumerate(B_OPTS.get(fmt, []) + ["-"]):
+                fo = {} if oname == "-" else {oname: True}
+                heavy = fmt in ("csv", "tsv") and oname in ("implicit", "ragged", "-")
+                for i in range((6 if heavy else 3) if q else (40 if heavy else 16)):
                     cases.append({"seed": f"{chk.seed}/bo/{fmt}/{oi}/{i}", "fmt": fmt, "tier": chk.tier, "force_opts": fo, "fresh_keys": True})
         for c in cases[:1] + cases[len(cases) // 2:len(cases) // 2 + 1] + cases[-1:]:
             c["sample"] = True
